@@ -83,6 +83,15 @@ def draw_case_scenario(seed, tier, force=None):
         if not isinstance(sk.get("target_efficiency"), list):
             sk["target_efficiency"] = float(pick(rng, [0.5, 0.9, 0.99]))
         extra = extra + "+tol"
+    elif rng.uniform() < 0.12 and "n_steps" not in force:
+        # ONE sampler object serves two sample() calls: a preliminary run with other schedule options (a ramp before a
+        # float target, fixed before adaptive, ...), then the judged run -- options of an earlier call must not linger
+        s1, m1 = draw_schedule(rng)
+        s1["sampler_kwargs"] = {"n_steps": 1}
+        scn["api"] = "sampler"
+        scn["rng_route"] = "sample" if scn["rng_route"] != "none" else "none"
+        scn["first_call"] = s1
+        extra = extra + "+after_" + m1
     scn["_schedule_mode"] = mode + ("+" + extra if extra != "none" else "")
     return scn
 
@@ -120,9 +129,23 @@ def run_schedule_case(case, workdir, want):
     tier = case.get("tier", "quick")
     ks = scn["sample_kwargs"]["sampler_kwargs"]["n_steps"]
     max_iter = case.get("max_iter", MAX_ITER[tier])
-    stop_after = 2 + max_iter * (ks + 2)
+    stop_after = (2 + max_iter * (ks + 2)) * (2 if scn.get("first_call") else 1)
     res = run_process(scn, workdir, stop_after=stop_after, fresh_file=True)
     out = {"violations": [], "evaluations": 1, "events": len(res.trace.events), "probes": {}, "faults_fired": {}}
+    if scn.get("first_call"):
+        out["faults_fired"]["sampler_object_reused"] = 1
+        if not any(k == "first_call_done" for _, k, _ in res.trace.events):
+            # the PRELIMINARY call did not finish: nothing about the judged call is known
+            fk = {k: v for k, v in scn["first_call"].items() if k != "sampler_kwargs"}
+            if res.status == "error" and "c06" in want:
+                out["violations"].append(O.violation(
+                    "c06.raises", f"valid schedule options {fk} made the run raise {res.error}",
+                    {**O.scn_where(scn), "error_type": res.error_type, "call": "preliminary"}, tb=(res.tb or "")[-1800:]))
+            else:
+                out["aborted"] = {"why": "preliminary call on the reused sampler did not finish", "status": res.status, "error": res.error}
+            out["nontrivial_keys"] = []
+            out["digest"] = digest_of([res.status, res.error])
+            return out
     h = res.history
     n_iter = len(h.beta) if h is not None and hasattr(h, "beta") else 0
     out["iterations"] = n_iter
